@@ -155,6 +155,8 @@ class Interp(StmtMixin):
                 return Val(Tree.ref(v.t), ty)
         if ty == "slist" and v.ty == "sexp":
             return Val(SExp.items(v.t), "slist")      # guarded by a `cast` obligation (cast_guard)
+        if ty == "str" and v.ty == "sexp":
+            return Val(SExp.s(v.t), "str")            # guarded by a `cast` obligation (cast_guard)
         if ty == "sexp" and v.ty == "str":
             return Val(SExp.Atom(v.t), "sexp")
         if ty == "sexp" and v.ty == "slist":
@@ -189,6 +191,9 @@ class Interp(StmtMixin):
         if v.ty == "sexp" and ty == "slist":
             # an expression handed to a parameter that is iterated as a list of expressions must be a list (not a string)
             self.oblige(st, "cast", "expression used as a list", SExp.is_Lst(v.t), line)
+            return
+        if v.ty == "sexp" and ty == "str":
+            self.oblige(st, "cast", "expression used as a string", SExp.is_Atom(v.t), line)
             return
         if v.ty != "tree_value":
             return
